@@ -150,6 +150,9 @@ func genLine(g *hx.Gen, kind int) string {
 			if r.Chance(1, 6) {
 				bx[r.Intn(len(bx))] ^= 1
 				g.Stat("secretbox.open-tampered")
+			} else if r.Chance(1, 8) { // shorter than the tag: (nil, false), no panic
+				bx = bx[:r.Intn(16)]
+				g.Stat("secretbox.open-short")
 			} else {
 				g.Stat("secretbox.open-valid")
 			}
